@@ -626,6 +626,10 @@ def _handle_expr(node: ast.expr, ctx: Context) -> sympy.Expr | None:
                 comparisons.append(sympy.Eq(prev_value, right))
             elif isinstance(op, ast.NotEq):
                 comparisons.append(sympy.Ne(prev_value, right))
+            else:
+                # is, is not, in, not in: dropping the link would change the chain
+                msg = f"Comparison operator {type(op).__name__} not implemented"
+                raise NotImplementedError(msg)
 
             prev_value = right
 
